@@ -275,6 +275,11 @@ class Documentable:
         assert isinstance(old_parent, CanContainImportsDocumentable)
         old_name = self.name
         self.parent = self.parentMod = new_parent
+        if not isinstance(self, Module):
+            # What is inside a moved class lives in the new module as well
+            # (the sidebar of a nested class shows `ob.module`).
+            for o in below:
+                o.parentMod = new_parent
         self.name = new_name
         del old_parent.contents[old_name]
         old_parent._localNameToFullName_map[old_name] = self.fullName()
